@@ -31,6 +31,9 @@ def tasks(tier):
                     if quick and engine == "async" and mix == 1 and s0 != 0:
                         continue
                     out.append({"engine": engine, "rtc": True, "mix": mix, "s0": s0, "m_before": mb, "full": not quick})
+    for s0 in range(3):
+        for mb in (1, 2):  # the machine has event-specific callbacks; a listener with only generic ones is attached later
+            out.append({"engine": "sync", "rtc": True, "mix": 0, "s0": s0, "m_before": mb, "full": not quick, "late": True})
     if not quick:
         for mb in range(5):
             for s0 in range(3):
@@ -45,11 +48,11 @@ BUDGET = {
 BOUNDS = {
     "quick": "T-actions template (C02); before and on groups populated {none, event-specific convention, all styles} independently; exit/enter/after "
     "present (generic) and returning junk; providers {machine} / {machine, model, listener}; every pre-state x event {go, hop, tick, jump}; "
-    "one invocation (any of the first 4 value-returning ones, or none) returns one of None, [], [x], (), {}, ''; all other values symbolic ints in [-3,3].",
+    "a variant with a listener that has only generic callbacks attached after construction; one invocation (any of the first 4 value-returning ones, or none) returns one of None, [], [x], (), {}, ''; all other values symbolic ints in [-3,3].",
     "thorough": "modes {none, generic, specific, inline, all}, provider mixes incl. listener-only and two listeners, also rtc=False.",
 }
 OUTSIDE = "more than one awkward value per event; values of other types (floats, objects); nested events (C03)"
-OBLIGATIONS = ["result-none", "result-single", "result-list", "special-value-returned", "internal", "multi-event-second-id", "no-transition"]
+OBLIGATIONS = ["late-generic-listener", "result-none", "result-single", "result-list", "special-value-returned", "internal", "multi-event-second-id", "no-transition"]
 ASSUMPTIONS = [
     "result order inside the before group and inside the on group is free (the acceptor uses the observed order), before values precede on values",
     "values are compared by identity of kind and value: [] is not None, () is not [], 0 is not False",
@@ -62,8 +65,11 @@ def run(ctx, params):
              "exit": "generic", "enter": "generic", "after": "generic"}
     mix = MIXES[params["mix"]]
     is_async = params["engine"] == "async"
+    late = params.get("late")
     with ctx.notracing():
         am = build_am(modes, mix, is_async)
+        if late:
+            am["methods"]["listener0"] = ["before_transition", "on_transition"]
         box = [None]
         r = render(am, box, class_name="C14M")
         script = Script(ctx, am, budget=0, values="special")
@@ -71,12 +77,15 @@ def run(ctx, params):
         model = r["model_cls"]() if r["model_cls"] else None
         listeners = [c() for c in r["listener_classes"]]
         script.muted = True
-        sm = r["cls"](model, rtc=params["rtc"], listeners=listeners, allow_event_without_transition=bool(params["s0"] == 0))
+        sm = r["cls"](model, rtc=params["rtc"], listeners=[] if late else listeners, allow_event_without_transition=bool(params["s0"] == 0))
         if is_async:
             sm.activate_initial_state()
         sm.current_state_value = STATES[params["s0"]]
         script.muted = False
         script.sm = sm
+    if late:
+        sm.add_listener(*listeners)
+        ctx.cover("late-generic-listener")
     cur = STATES[params["s0"]]
     ev = EVENTS[ctx.choose(len(EVENTS), "ev")]
     out = outcome_of(lambda: sm.send(ev), sm)
